@@ -1610,12 +1610,12 @@ _with("C04", [F_SHORTW], lambda tier, rng: [c for c in gen_shortw(tier, random.R
 
 STATUS = {
  "C01": "Proved for every stream (hash_ok hypothesis): both decoders, set up with the blob's root / size / block size and any well-formed non-empty query, yield a prefix of the honest items, finish only on streams that start with the honest encoding, fail exactly where the stream departs, never panic (C01_e2e_sync/fsm), and decode_ranges writes only those items' bytes (C01_e2e_decode_ranges*). Stated up to the first error; past-the-error behaviour of the fsm decoder is known finding F7. Wrong claimed sizes: C16. Audit additions: every statement for every well-formed query incl. the empty one; arbitrary poll sequences after errors characterised (sound while only leaf mismatches occurred; refuted with witnesses after a parent mismatch = findings F7 / F8 and the sync foreign-parent case); targets of any length; stored pairs are the true pairs.",
- "C02": "Proved (hash_ok): on any store created by the crate both validating encoders return flat(honest) (C02_enc_is_spec_*, C05_created_store_ok), and every decoder (sync, fsm, decode_ranges) fed that encoding followed by arbitrary further bytes yields exactly the honest items, finishes, and leaves the further bytes unread (C02_roundtrip_full_*); the leaves deliver exactly the selected chunks (C02_delivers_selection); the empty query encodes / decodes to nothing.",
+ "C02": "Proved (hash_ok): on any store created by the crate both validating encoders return flat(honest) (C02_enc_is_spec_*, C05_created_store_ok), and every decoder (sync, fsm, decode_ranges) fed that encoding followed by arbitrary further bytes yields exactly the honest items, finishes, and leaves the further bytes unread (C02_roundtrip_full_*); the leaves deliver exactly the selected chunks (C02_delivers_selection); the empty query encodes / decodes to nothing. Audit additions: the store need only be intact on the plan's nodes; decoder geometry given separately from the store's; every sink kind incl. io-backed stores of any length (exact slot frame) and targets of any length; each selected chunk is delivered exactly once, in increasing order; the non-validating encoders round-trip wherever every touched group is fully selected (always at block size 0); the item stream characterised at item level.",
  "C03": "Proved unconditionally (C03_*_e2e): every creation entry point of the model returns root_hash = BLAKE3 tree hash of the data (C03_root_is_blake3_tree) and the io-backed / memory outboards hold exactly the recursive spec_outboard bytes of (blocks-1)*64 bytes. bao equality at block size 0 is carried by the harness comparison with the bao crate. Audit additions: stored pairs written out explicitly, the pre-order outboard at block size 0 equals a plain definition of bao's outboard, all entry points agree, init_from over io stores of any length (the tail of a longer stale store is kept).",
  "C04": "Proved: both validating encoders compute the recursive specification, which depends on (data, block size, selected chunks) only (C04_function_of_selection*), the parent items are those of the block-size-0 encoding minus exactly the nodes inside fully selected subtrees of at most one group (C04_pruning, C04_keep_def, C04_honest_nodes), nothing is pruned at block size 0 (C04_bs0_is_bao_layout). Byte equality with the bao crate at block size 0 is carried by the bao correspondence family (the bao crate is not modelled). Audit additions: a plain recursive definition of bao's slice format and its equality with the honest encoding at block size 0 for all five encoders on created stores.",
  "C05": "Proved (hash_ok): on ANY store contents the validating encoders (sync, fsm) write a prefix of flat(honest) and stop with the hash-mismatch error at the first plan unit whose stored bytes differ (C05_prefix*, C05_detects*), independent of everything behind it (C05_independent*); on a created store they succeed with flat(honest) (C05_created_store_ok). The item-stream encoder inherits this through C08_encode_agree (same items, same error, any store). Audit additions: the item stream at the same strength, Ok exactly when every plan unit is intact, the receiver's side (every prefix written is accepted item by item by a decoder with the true root).",
  "C06": "Proved (hash_ok): the four validators compute the (touched, chain_ok, leaf_ok) recursion on ANY store contents (C06_data_exact, C06_outboard_exact); everything reported is truly stored and chained to the root (C06_reported_is_true, C06_chain_ok_true, C06_leaf_ok_true), everything valid and touched is reported (C06_valid_is_reported), intact / created stores are reported completely (C06_intact_complete, C06_created_store_complete), sync = fsm on tree nodes (C06_sync_eq_fsm_tree). Audit additions: the fsm validators on arbitrary stores without loader premises, data files shorter / longer than the blob (exact output), finding F9 (short io-backed outboard stores) with kernel-checked witnesses.",
- "C07": "Proved (hash_ok): Inv (target and store agree with the blob on the delivered set) holds initially and is preserved by every decode_ranges step, sync or fsm, on ANY stream and under any sink fault (C07_inv_step, C07_inv_history); the validator reports exactly the completely delivered groups in every reachable state (C07_validator_exact*); once the delivered set covers all chunks the state is (blob, created store) (C07_converges, C07_history_converges*).",
+ "C07": "Proved (hash_ok): Inv (target and store agree with the blob on the delivered set) holds initially and is preserved by every decode_ranges step, sync or fsm, on ANY stream and under any sink fault (C07_inv_step, C07_inv_history); the validator reports exactly the completely delivered groups in every reachable state (C07_validator_exact*); once the delivered set covers all chunks the state is (blob, created store) (C07_converges, C07_history_converges*). Audit additions: the frame clause made explicit relative to any initial target / store content (InvR), the exact effect of the k-th failing target write or save for both drivers, the outboard-only validators in history states, io sinks that are not pre-sized (fsm validators stay exact; the sync ones need the property's pre-sized premise: finding F9), convergence with failed, truncated or corrupted steps in the middle and from any initial content.",
  "C08": "Proved: creation sync = fsm unconditionally (C08_outboard_agree); decoding sync = fsm on EVERY stream (C08_decode_agree, C08_decode_cases); validating encoders sync = fsm under load agreement, discharged for memory and pre-sized io-backed stores (C08_encode_agree, C08_load_agree_*); the non-validating encoders equal the validating ones exactly when every touched group is fully selected, refuted otherwise = known finding F6 (C08_nonvalidating_*). The item-stream traversal yields, for any data and any store, Size, then items whose bytes are exactly the sync encoder's output, then Done / the same error (C08_encode_agree, C08_mixed_frame). Audit additions: item stream = sync encoder item by item, decode_ranges sync = fsm on every stream, all creation entry points and loaders agree, the exact output of the non-validating encoders for every query (the honest encoding of the selection widened to whole groups), finding F9.",
  "C09": "Proved (hash_ok): truncation at any byte / alteration of any byte of the honest stream yields exactly the items before it and NotFound / HashMismatch naming the item containing the byte (C09_e2e_*), io kinds by computation; no panic up to the first error (C16_total). Panic of the sync iterator polled after an error: known finding F8. Audit additions: exact location and io kind for both decode_ranges drivers, the decoder states after each kind of error, the fsm decoder never panics on any poll sequence, the plan iterator inside the decoders never panics.",
  "C10": "Proved: first-failure semantics over the per-operation call lists (surfaces, nothing after, prefix), classification of every call site, decode_ranges with failing sinks, read loops with a failing read. Partial by nature: the call lists are tied to the crate by the logged-call correspondence; OS / runtime behaviour around a failing call is outside the model. Audit additions: the k-th reader call failing over whole decoder runs (sync, fsm) and creation, failing data / outboard sources under every encoder, validator, copy and the item stream (result is exactly the io error, output a prefix), full sinks, truncated blobs.",
